@@ -362,4 +362,35 @@ theorem C16_ide_style_example :
 theorem C16_defaultdict_fresh_example :
     defaultFromTy (.generic .defaultdict true) = { dflt := none, factory := some (.atom .defaultdict) } := by decide
 
+/-! ## the public name of an underscored property: only LEADING underscores are dropped -/
+
+/-- The public partner of the underscored name `_n` is `n` itself whenever `n` does not start with an underscore —
+whatever `n` ends with: `_id_` is paired with `id_`, `_type_` with `type_` (PEP 8 spells a name that clashes with a
+keyword or builtin with a trailing underscore). -/
+theorem C16_public_name_keeps_suffix (n : Name) (h : isUnder n = false) : lstrip ('_' :: n) = n := by
+  match n, h with
+  | [], _ => rfl
+  | c :: r, h =>
+    by_cases hc : c = '_'
+    · subst hc; simp [isUnder] at h
+    · simp only [lstrip]
+      unfold lstrip
+      split
+      · rename_i heq; simp only [List.cons.injEq] at heq; exact absurd heq.1 hc
+      · rfl
+
+/-- underscored property `_id_` over the public field `id_: int = 3`: one constructor parameter `id_`, the setter
+receives the declared default 3 -/
+theorem C16_trailing_underscore_example :
+    let ms : List Member :=
+      [.annAssign "id_".toList (.atom .int) (.lit (.int 3)),
+       .prop "_id_".toList true]
+    ∃ fs i c', dataclass (propertyWizard Quirks.clean ms) = .ok fs
+      ∧ fs.map (·.name) = ["id_".toList]
+      ∧ construct (propertyWizard Quirks.clean ms) fs [] 0 = .ok (i, c')
+      ∧ i.log = [("id_".toList, .lit (.int 3))] := by
+  refine ⟨[{ name := "id_".toList, dflt := .value .propObj, init := true }],
+          { log := [("id_".toList, .lit (.int 3))], store := [("id_".toList, .lit (.int 3))] }, 0,
+          by rfl, by rfl, by rfl, rfl⟩
+
 end DW.Props.C16
